@@ -119,10 +119,14 @@ static void exact_multi(int t, int bb, int n_in, int n_out, int reps) {
     int w = 0; for (int x: K.s_in) w += x;
     VH_OP("lweKeySwitch:multi:n_in=%d:n_out=%d:t=%d:basebit=%d", n_in, n_out, t, bb);
     for (int rep = 0; rep < reps; rep++) {
-        int cls0 = rep % 5;      // 4: every coefficient draws its own class (neighbouring coefficients of different special kinds)
+        int cls0 = rep % 7;      // 4: every coefficient draws its own class; 5: sparse mask (zero, a few tiny coefficients below one unit, some with
+                                 // the rounding bit set); 6: trivial sample with one such coefficient
+        int lone = (int) rng.below(n_in);
         for (int i = 0; i < n_in; i++) {
             int cls = cls0 == 4 ? (int) rng.below(4) : cls0;
-            U v = cls == 0 ? rng.u32() : cls == 1 ? (rng.u32() << (32 - tb)) + halfu + (U) rng.range(-1, 1) : cls == 2 ? 0xFFFFFFFFu - (U) rng.below(4) : (rng.coin() ? 0x80000000u : 0x7FFFFFFFu);
+            U tiny = rng.below(3) == 0 ? halfu + (U) rng.below(halfu) : (U) rng.below(unit);      // below one unit: only the rounding bit may be set
+            U v = cls == 0 ? rng.u32() : cls == 1 ? (rng.u32() << (32 - tb)) + halfu + (U) rng.range(-1, 1) : cls == 2 ? 0xFFFFFFFFu - (U) rng.below(4)
+                : cls == 5 ? (rng.below(4) == 0 ? tiny : 0u) : cls == 6 ? (i == lone ? halfu + (U) rng.below(halfu) : 0u) : (rng.coin() ? 0x80000000u : 0x7FFFFFFFu);
             gin.s->a[i] = (int32_t) v;
         }
         gin.s->b = rng.i32();
